@@ -13,7 +13,7 @@ CLAIMS = {
  'C08': ("differential execution over random linear extensions of the declaration order (all 720 orders of SIM in the thorough tier), exact comparison of the re-solved systems",
          "Held on K observed builds: permuted declaration orders give the same variable set and the same exact solution; a permuted build that fails is a violation. Country order is fixed (documented dependence).", "3/C08"),
  'C18': ("structural-name-map differential: renamed vs default codes, stand-alone vs embedded economies and book builders, exact comparison of the re-solved systems",
-         "Held on K observed builds: renamed and embedded economies have the mapped variable set and equal exact solutions; the PC builder's embedding failure is a listed known finding.", "3/C18"),
+         "Held on K observed builds: renamed (random and tricky codes) and embedded economies, incl. the bundled SIM/SIMEX1/PC builders with their book exogenous on and off, have the mapped variable set and equal exact solutions.", "3/C18"),
  'C01': ("offline conservation checker on the exact rational re-solution of the emitted equations: per-currency sum dF + NET == 0 and per-sector ledgers == spec-declared flows; in-situ AddCashFlow wrapper",
          "Held on K observed models: random topologies (1-3 zones, federations, all government/household/firm forms, deposits, gifts, imports, non-unit rates) built and solved by the real code; identities are exactly zero on the Fraction solution of the emitted text. Topologies outside the spec language are not explored.", "3/C01"),
  'C04': ("market-clearing / allocation / pair identities from spec-declared participants on the exact re-solution; bookings through sector ledgers",
@@ -23,7 +23,7 @@ CLAIMS = {
  'C20': ("execute the module written by the real generator; residual monitor on its series, differential vs the in-process solver, header check",
          "Held on K observed blocks: the generated file imports and runs, its series satisfy the block equations (lags from its own k-1, exogenous as supplied) within tolerance, agree with the in-process solver started from the same k=0 values, and its table lists t first and each non-lagged variable once.", "3/C20"),
  'C15': ("one-further-step monitor after accepted steady states (real SolveStep on a deep copy, exogenous frozen), snapshot equality of solver inputs",
-         "Held on K observed searches over stable/unit/unstable/oscillating linear lag systems with positive, negative and sign-changing fixed points: an accepted state moves by <= 5 tolerances in one further real step; failures raise only NoEquilibriumError/ValueError; parser lists, exogenous series and horizon unchanged.", "3/C15"),
+         "Held on K observed searches over stable/unit/unstable/oscillating linear lag systems with positive, negative and sign-changing fixed points: an accepted state moves by <= 3 tolerances in one further real step (also through the public SolveEquation path); one listed open finding (D15: a tiny non-decaying oscillation sampled at a turning point); failures raise only NoEquilibriumError/ValueError; parser lists, exogenous series and horizon unchanged.", "3/C15"),
  'C17': ("fresh-subprocess vs long-history bitwise differential with logging/tracing/re-solve settings; re-parse key-set check",
          "Held on K observed histories: series of a target computed after drawn in-process histories (other builds, failures, unfinished builds, interleaved construction, registered logs, tracing, re-solves) are bitwise equal to a fresh interpreter's; a re-parsed solver reports exactly the new block.", "3/C17"),
  'C11': ("sweep counting by an instrumented user function, state-after-failure comparison with a cut reference run, contraction=>success, exhaustive reserved-name enumeration, ill-formed declarations",
@@ -76,7 +76,7 @@ def main():
                      'kind_free_text': 'seeded workload drivers over the real code + run-time wrapper monitors + offline checkers/reference oracles; 16-way subprocess sharding; three-valued verdicts'}],
         'checks': checks,
         'not_applicable': na,
-        'notes': 'exit 0 held / 1 VIOLATION / 2 INCONCLUSIVE. VERIF_SEED and VERIF_TIER honoured. Known findings: known_findings.json.',
+        'notes': 'exit 0 held / 1 VIOLATION / 2 INCONCLUSIVE (required monitor counter or anchored function never reached, too few judged cases, shard failure). VERIF_SEED and VERIF_TIER honoured. Known findings: known_findings.json (one open entry: C15 D15). Seeded changes and which checks catch them: seeded/INDEX.md; DESIGN.md section 5.',
     }
     if not na:
         del m['not_applicable']
